@@ -28,6 +28,8 @@ fn ref_cmp(a: &RV, b: &RV) -> Option<Ordering> {
     match (a, b) {
         (RV::Str(x), RV::Str(y)) => Some(x.cmp(y)),
         (RV::Bool(x), RV::Bool(y)) => Some(x.cmp(y)),
+        // integers are ordered exactly (not through a double)
+        (RV::Int(x), RV::Int(y)) => Some(x.cmp(y)),
         _ => match (num(a), num(b)) {
             (Some(x), Some(y)) => x.partial_cmp(&y),
             _ => None,
@@ -353,7 +355,7 @@ fn count(k: u64, maxlen: usize) -> u64 {
 }
 
 pub fn run(ctx: &Ctx) {
-    ctx.set_rule("E2: all arrays of length 0..5 over the comparable pool {1, 2, 2.0, 3, nil, nil} (thorough: 0..6) and over {a, A, b, B, nil} through sort, sort_natural, reverse, uniq, compact, concat (every second array of length <= 2), first, last, size, slice (offset -6..6 x length 1,2,5) and join; all arrays of length 0..4 (thorough 5) of objects whose property k is 1 / 2 / 2.0 / nil / absent / false / a string, each with a distinct id, through map, where (truthy and four targets), sort / sort_natural / compact by property, for the property names k (present), zz (absent), id; E1: arrays of up to 60 elements (beyond the 20-element threshold) in random, sorted, reversed and organ-pipe order over comparable numbers, case-differing strings and mixed incomparable kinds; long object arrays. Oracles: permutation (multiset), non-decreasing with nil last, stability against a reference insertion sort, idempotence, reference first-occurrence dedup under the value model's equality, exact reference results for the others. Non-trivial = >= 2 elements with a duplicate, a nil or two kinds; distinct by (group, array, argument).");
+    ctx.set_rule("E2: all arrays of length 0..5 over the comparable pool {1, 2, 2.0, 3, nil, nil} (thorough: 0..6) and over {a, A, b, B, nil}, arrays of length 0..4 over integers that are not doubles {2^53, 2^53+1, 2^53+2, MAX-1, MAX, MIN, nil} and of length 0..3 over single-key objects differing in which key they hold and whether it holds nil, through sort, sort_natural, reverse, uniq, compact, concat (every second array of length <= 2), first, last, size, slice (offset -6..6 x length 1,2,5) and join; all arrays of length 0..4 (thorough 5) of objects whose property k is 1 / 2 / 2.0 / nil / absent / false / a string, each with a distinct id, through map, where (truthy and four targets), sort / sort_natural / compact by property, for the property names k (present), zz (absent), id; E1: arrays of up to 60 elements (beyond the 20-element threshold) in random, sorted, reversed and organ-pipe order over comparable numbers, case-differing strings and mixed incomparable kinds; long object arrays. Oracles: permutation (multiset), non-decreasing with nil last, stability against a reference insertion sort, idempotence, reference first-occurrence dedup under the value model's equality, exact reference results for the others. Non-trivial = >= 2 elements with a duplicate, a nil or two kinds; distinct by (group, array, argument).");
     ctx.assume("for arrays holding mutually incomparable elements only the permutation property and absence of failure are claimed for sort");
     let sp = scalar_pool();
     let tp = string_pool();
@@ -368,6 +370,20 @@ pub fn run(ctx: &Ctx) {
         ctx.exhaustive("string_arrays", count(5, 5) * extra_n(5), move |i| arrays_nth(i, tp, 5, "strings"), oracle);
     }
     ctx.exhaustive("object_arrays", count(7, lo) * 3, move |i| objects_nth(i, lo), oracle);
+    // integers that are not doubles (distinct values, one double), next to that double
+    // (no float in this pool: 2^53+1 == 2^53 as a double == 2^53 but 2^53+1 > 2^53 is not an order)
+    let bp = vec![RV::Int(1 << 53), RV::Int((1 << 53) + 1), RV::Int(i64::MAX - 1), RV::Int(i64::MAX), RV::Int(i64::MIN), RV::Int((1 << 53) + 2), RV::Nil];
+    {
+        let bp = &bp;
+        ctx.exhaustive("bigint_arrays", count(7, 4) * extra_n(7), move |i| arrays_nth(i, bp, 4, "scalars"), oracle);
+    }
+    // objects that differ only in which key holds nil / is absent (equality must look at both sides)
+    // (single-key objects: how an object with several keys prints is unspecified)
+    let np = vec![obj(vec![("a", RV::Nil)]), obj(vec![("b", RV::Nil)]), obj(vec![("a", RV::Int(1))]), obj(vec![("b", RV::Int(1))]), obj(vec![("c", RV::Bool(false))]), obj(vec![]), RV::Nil];
+    {
+        let np = &np;
+        ctx.exhaustive("nil_member_object_arrays", count(7, 3) * extra_n(7), move |i| arrays_nth(i, np, 3, "scalars"), oracle);
+    }
     ctx.random("long_arrays", ctx.pick(150_000, 8_000_000), long_arrays, oracle);
     ctx.random("long_object_arrays", ctx.pick(40_000, 2_500_000), long_objects, oracle);
 }
